@@ -7,11 +7,11 @@ ALL = ["C%02d" % i for i in range(1, 21)]
 # id -> (technique, level text, level note, design ref)
 CLAIMED = {
  "C10": ("property-based testing with fault/schedule injection (rapid): generated stress plans executed inside user callbacks called from generated code, in worker processes under hostile runtime settings; differential vs the unstressed run and encoding/json",
-         "While sonic's generated code is on the stack, user callbacks force collections, stack copies, tracebacks, profiles, panics and allocation churn according to a generated plan, in worker processes started with GOGC=1, clobberfree/invalidptr/gccheckmark, SONIC_SYNC_GC, a background collector or a CPU profiler; the process must survive and results must equal the unstressed results, also after further collections and after the input string was dropped. Exploration with injected runtime events.",
+         "While sonic's generated code is on the stack, user callbacks force collections, stack copies, tracebacks, profiles, panics and allocation churn (refilling freed small slots with junk, also after the callback's last use of its receiver) according to a generated plan, and fully populated pointer arrays that fill an allocator size class are decoded into fresh destinations while collections run back to back, in worker processes started with GOGC=1, clobberfree/invalidptr/gccheckmark, SONIC_SYNC_GC, a background collector or a CPU profiler; the process must survive and results must equal the unstressed results, also after further collections and after the input string was dropped. Exploration with injected runtime events.",
          "Trusted: the Go runtime's own checks (invalidptr, checkmark, clobberfree) turn corruption into crashes; worker protocol.",
          "DESIGN.md §7 C10"),
  "C09": ("property-based testing (rapid): metamorphic relation over process history - the same probe calls after two generated preludes and after none, each in a fresh worker process, plus differential vs encoding/json",
-         "Generated preludes (other types, other shapes, Pretouch/PretouchMany with varying inline and recursion depth, batches with identically printing types, cache fillers) are executed in fresh processes before the same probe calls; transcripts must not depend on the prelude and no process may crash. Exploration.",
+         "Generated preludes (other types, other shapes, Pretouch/PretouchMany with varying inline and recursion depth, batches with identically printing types, cache fillers, hostile calls that leave pooled parsers/buffers/stacks in unusual states, bursts of rejected documents; workers also under SONIC_USE_OPTDEC, SONIC_USE_FASTMAP, SONIC_ENCODER_USE_VM and GOGC=off) are executed in fresh processes before the same probe calls; transcripts must not depend on the prelude and no process may crash. Exploration.",
          "Trusted: worker protocol; each transcript starts from a cold process, so cache state is exactly what the prelude made it.",
          "DESIGN.md §7 C09"),
  "C08": ("property-based testing (rapid) under the Go race detector: generated concurrent operation lists over freshly generated types, compared with a sequential oracle",
@@ -23,15 +23,15 @@ CLAIMED = {
          "Trusted: Go race detector, harness/ref tree for path generation.",
          "DESIGN.md §7 C16"),
  "C07": ("property-based testing / fuzzing (rapid): hostile input recipes x entry points executed in a supervised worker process, invariant on process survival, panics, progress and error-value usability",
-         "Generated hostile inputs (deep nesting, huge tokens, raw and mutated bytes, cyclic and very deep Go values) are run through 18 entry points inside a worker process so that a fatal runtime error is observed and attributed; every error value is checked for a terminating, bounded message and an in-range position. Exploration; hangs are bounded by a 120 s answer deadline.",
-         "Trusted: the worker protocol; limits (4096-byte message bound, 120 s) are the harness's reading of 'bounded' and 'hang'.",
+         "Generated hostile inputs (deep nesting, huge tokens, raw and mutated bytes, cyclic and very deep Go values) are run through 18 entry points inside a worker process so that a fatal runtime error is observed and attributed; every error value is checked for a terminating, bounded message and an in-range position. Exploration; a case that gets no answer within 300 s is re-run alone in fresh workers with 600 s and 1200 s and reported as a hang only if it exceeds all three.",
+         "Trusted: the worker protocol; limits (4096-byte message bound, 300/600/1200 s) are the harness's reading of 'bounded' and 'hang'.",
          "DESIGN.md §7 C07"),
  "C06": ("property-based testing (rapid): invariant over generated call histories (snapshots of returned buffers stay intact while older ones are scribbled), guard-page/canary geometry for EncodeInto, overwrite-the-input metamorphic check for decoders",
          "Generated histories of encode/decode calls with sizes straddling the pool thresholds are run while the harness keeps private copies of every returned buffer and overwrites buffers it owns; any later change of returned bytes, any dependence of EncodeInto's result on capacity/junk/prefix, any write outside the caller's capacity and any decoded value that changes when the input buffer is overwritten is a violation. Exploration.",
          "Trusted: guard page and canaries; single-goroutine histories here (concurrent use is C08).",
          "DESIGN.md §7 C06"),
  "C05": ("property-based testing (rapid): metamorphic relation over memory placement (heap copy vs alignment vs adversarial continuation vs guard page) with fault detection",
-         "The same generated bytes are handed to 31 string/slice-taking entry points at different placements; the full observable result must be identical everywhere and a placement that ends at the edge of mapped memory must not fault (guard page + SetPanicOnFault). Exploration.",
+         "The same generated bytes (grammar documents, mutants, prefixes, and documents generated for the destination type of the typed entries and cut anywhere) are handed to 35 string/slice-taking entry points at different placements; the full observable result must be identical everywhere and a placement that ends at the edge of mapped memory must not fault (guard page + SetPanicOnFault). Exploration.",
          "Trusted: mmap/mprotect guard page, runtime fault-to-panic conversion for sonic's loader-registered native code. Two known native over-reads (literal tail, leading zero at the end) are classified by input shape.",
          "DESIGN.md §7 C05"),
  "C13": ("property-based testing (rapid): differential AVX2 vs SSE, routine level (both variants in one process) and API level (two worker processes under SONIC_MODE)",
